@@ -613,7 +613,7 @@ impl SmithNormalForm {
             if self.rows[i][i] == 0 {
                 self.rows[i][i] = self.h as i128;
             }
-            det *= self.rows[i][i];
+            det = det.saturating_mul(self.rows[i][i]);
             for j in 0..i {
                 assert_eq!(self.rows[i][j], 0, "nonzero@[{i},{j}]");
             }
@@ -660,7 +660,7 @@ impl SmithNormalForm {
             if self.rows[i][i] == 0 {
                 self.rows[i][i] = self.h as i128;
             }
-            det *= self.rows[i][i];
+            det = det.saturating_mul(self.rows[i][i]);
             for j in 0..self.rows.len() {
                 if j != i {
                     assert_eq!(self.rows[i][j], 0, "nonzero@[{i},{j}]");
@@ -730,7 +730,8 @@ impl SmithNormalForm {
             }
             let diag: Vec<i128> = (0..n).map(|j| self.rows[j][j]).collect();
             //eprintln!("diag {diag:?}");
-            let prod = diag.iter().product::<i128>();
+            // Saturating: two diagonal entries close to h already overflow i128 for h above 2^64.
+            let prod = diag.iter().fold(1i128, |acc, &d| acc.saturating_mul(d));
             if prod == self.h as i128 {
                 if self.verbose {
                     eprintln!("Found basis of relation lattice");
